@@ -151,3 +151,18 @@ def run(tier, seed, escalate=False):
     res = _run_before_scale(tier, seed, escalate)
     f, n = axis_scale_independence("C15", SCALE_CASES, seed)
     return merge_oracle(res, f, n, "axis_scale_variants")
+
+
+# ------------------------------------------------------------------ the same argument values in another container / number type
+from oracles import argform_independence
+ARGFORM_CASES = [("apodize-lw", "t2", [(lab, (lambda w: lambda d, dim: dnp.apodize(d, dim, kind="exponential", lw=w))(w)) for lab, w in (
+        ("float", 2.0), ("int", 2), ("numpy-float", np.float64(2.0)), ("numpy-int", np.int64(2)), ("0-d array", np.array(2.0)))]),
+    ("apodize-kind-case", "t2", [(lab, (lambda k: lambda d, dim: dnp.apodize(d, dim, kind=k))(k)) for lab, k in (("lower", "hamming"), ("upper", "HAMMING"), ("mixed", "Hamming"))])]
+_run_before_argform = run
+
+
+def run(tier, seed, escalate=False):
+    """… plus: sequence arguments as tuple / list / ndarray, numbers as Python / NumPy scalars, flags as bool / numpy.bool_ / 0-1"""
+    res = _run_before_argform(tier, seed, escalate)
+    f, n = argform_independence("C15", ARGFORM_CASES, seed)
+    return merge_oracle(res, f, n, "argument_form_variants")
